@@ -254,7 +254,11 @@ def rule_G5(ctx: Ctx) -> None:
         c = comps[0]
         g = c.generators[0]
         v = g.target.id
-        cut = X.U(g.ifs[0].comparators[0]) if isinstance(g.ifs[0], ast.Compare) else "?"
+        cut = "?"
+        if isinstance(g.ifs[0], ast.Compare) and len(g.ifs[0].ops) == 1:
+            sides = [g.ifs[0].left, g.ifs[0].comparators[0]]
+            plain = [x for x in sides if isinstance(x, ast.Name)]
+            cut = plain[0].id if len(plain) == 1 else "?"
         ok, slot = X.same_relation(g.ifs[0], f"len({v}.solution) > {cut}")
         it_ok = X.U(g.iter) in (dsn, f"{dsn}.mazes") and X.U(c.elt) == v
         cutdef = X.assignments_to(f.node, cut)
